@@ -78,7 +78,10 @@ impl Parser {
             ));
         }
 
+        // a select list that needs nothing from an entry (`select 1`, `select curdate()`) is printed
+        // once; the rows of a grouped query are its groups, however little its select list needs
         if limit == 0
+            && grouping_fields.is_empty()
             && fields
                 .iter()
                 .all(|expr| expr.get_required_fields().is_empty())
